@@ -507,8 +507,9 @@ def check_words(chk, maxword):
         with open(tf, "w") as f:
             for l in lines:
                 f.write(json.dumps(l) + "\n")
-        res = tlc.run_tlc("MC_Tags", cfg_text=cfg("InitWord", ["InvWord", "ImplWord"], MaxWord=maxword), env={"TRACE_FILE": tf},
-                          timeout=1500, name="Tags/words<=%d" % maxword)
+        res = tlc.run_tlc("MC_Tags", cfg_text=cfg("InitWord", ["InvWord"], MaxWord=maxword), env={"TRACE_FILE": tf},
+                          timeout=1500, name="Tags/words<=%d" % maxword, workers=rec_workers() if maxword > 6 else None,
+                          heap="10g" if maxword > 6 else "4g")
     finally:
         shutil.rmtree(wd, ignore_errors=True)
     design_ok(chk, res)
@@ -701,8 +702,21 @@ def random_records(chk, rng, n_rand, n_lists, n_big):
     return recs, meta
 
 
-def validate_records(chk, recs, meta, label):
+def rec_workers():
+    """TLC keeps one copy of the deserialized records per worker: few workers, moderate batches"""
+    return max(1, min(8, int(os.environ.get("VERIF_TLC_WORKERS", "16"))))
+
+
+def validate_records(chk, recs, meta, label, batch=20000):
     if not recs:
+        return
+    big = [r for r in recs if len(r.get("s", r.get("o"))) > 5000]
+    if len(recs) > batch or (big and len(big) < len(recs)):
+        rest = [r for r in recs if len(r.get("s", r.get("o"))) <= 5000]
+        if big:
+            validate_records(chk, big, meta, label + "/big", batch=10 ** 9)
+        for i in range(0, len(rest), batch):
+            validate_records(chk, rest[i:i + batch], meta, "%s/%d" % (label, i // batch), batch=10 ** 9)
         return
     wd = tlc.workdir("c02r")
     try:
@@ -711,7 +725,7 @@ def validate_records(chk, recs, meta, label):
             for r in recs:
                 f.write(json.dumps(r, separators=(",", ":")) + "\n")
         res = tlc.run_tlc("MC_Tags", cfg_text=cfg("InitRec", ["ImplRec"]), env={"TRACE_FILE": tf, "JDK_JAVA_OPTIONS": "-Xss256m"},
-                          timeout=1800, name="Tags/records:" + label)
+                          timeout=1800, name="Tags/records:" + label, workers=rec_workers(), heap="6g")
     finally:
         shutil.rmtree(wd, ignore_errors=True)
     if res["error_kind"] or not res["finished"] or res["distinct"] != len(recs):
@@ -771,7 +785,7 @@ def main(tier, seed):
         # D + R: grid lists
         out = os.path.join(wd, "grid.ndjson")
         res = tlc.run_tlc("MC_Tags", cfg_text=cfg("InitGrid", ["InvGrid"], "WriteGrid",
-                                                  Nums3=tla_set(NUMS if thorough else [0, 1, 15, 254]),
+                                                  Nums3=tla_set([0, 1, 15, 254]),
                                                   Lens3=tla_set(LENS if thorough else [0, 4, 5, 253, 254, 65536])),
                           env={"OUT_FILE": out}, timeout=1500, name="Tags/grid")
         design_ok(chk, res)
